@@ -1766,11 +1766,88 @@ pub fn f3_all(rng: &mut Rng, full: bool) -> F3All {
     dropped.extend(bad);
     pos.extend(f3g(rng, full));
     pos.extend(f3h(rng, full));
+    pos.extend(f3_allpinned());
     pos.extend(f3i(rng, if full { 40 } else { 8 }, if full { 2_000_000 } else { 300_000 }));
     F3All {
         pos,
         dropped_fens: dropped,
     }
+}
+
+// ------------------------------------------------------------------ all movable men pinned
+
+/// A cornered king (every corner, both colours) whose neighbours are own men pinned each along a DIFFERENT line (file,
+/// rank, diagonal) — two or three pins at once, of different kinds — and otherwise squares covered by a knight: the
+/// pinned men are of types that cannot move along their pin, so the position is a stalemate (or, with a knight check
+/// added, a mate) exactly when every pin is honoured.
+pub fn f3_allpinned() -> Vec<Pos> {
+    let mut out = Vec::new();
+    // king a1 (index 56); neighbours a2 = 48, b1 = 57, b2 = 49
+    let a2_pins: [(usize, u8); 2] = [(sqn("a8"), BR), (sqn("a5"), BQ)];
+    let b1_pins: [(usize, u8); 2] = [(sqn("h1"), BR), (sqn("e1"), BQ)];
+    let b2_pins: [(usize, u8); 2] = [(sqn("h8"), BB), (sqn("e5"), BQ)];
+    for mask in 3u8..8 {
+        if mask.count_ones() < 2 {
+            continue;
+        }
+        for v in 0..8u8 {
+            let mut c: Cells = [0; 64];
+            c[sqn("a1")] = WK;
+            let mut covered_by_knight: Vec<usize> = Vec::new();
+            if mask & 1 != 0 {
+                c[sqn("a2")] = if v & 1 == 0 { WN } else { WB };
+                let (s, m) = a2_pins[(v as usize >> 1) & 1];
+                c[s] = m;
+            } else {
+                covered_by_knight.push(sqn("a2"));
+            }
+            if mask & 2 != 0 {
+                c[sqn("b1")] = if v & 2 == 0 { WN } else { WB };
+                let (s, m) = b1_pins[(v as usize >> 2) & 1];
+                c[s] = m;
+            } else {
+                covered_by_knight.push(sqn("b1"));
+            }
+            if mask & 4 != 0 {
+                c[sqn("b2")] = if v & 4 == 0 { WN } else { WR };
+                let (s, m) = b2_pins[(v as usize) & 1];
+                c[s] = m;
+            } else {
+                covered_by_knight.push(sqn("b2"));
+            }
+            // a knight covering the free neighbour without giving check and off the pin lines: a2 <- b4, b1 <- d2, b2 <- d3
+            for sq in &covered_by_knight {
+                let k = if *sq == sqn("a2") { sqn("b4") } else if *sq == sqn("b1") { sqn("d2") } else { sqn("d3") };
+                if c[k] == 0 {
+                    c[k] = BN;
+                }
+            }
+            let bk = sqn("g5");
+            if c[bk] != 0 {
+                continue;
+            }
+            c[bk] = BK;
+            for check in [false, true] {
+                let mut cc = c;
+                if check {
+                    // a checking knight that nothing can capture (every own man is pinned)
+                    if cc[sqn("c2")] != 0 {
+                        continue;
+                    }
+                    cc[sqn("c2")] = BN;
+                }
+                let raw = cells_to_raw(&cc, Color::White, 0, None, 0, 1);
+                for r1 in [raw, crate::ops::mirror_raw_h(&raw)] {
+                    for r2 in [r1, mirror_raw_v(&r1)] {
+                        if let Some(p) = pos_of(r2, "F3-allpinned") {
+                            out.push(p);
+                        }
+                    }
+                }
+            }
+        }
+    }
+    out
 }
 
 // ------------------------------------------------------------------ forced outcome vs. draw by counter / material
